@@ -12,6 +12,7 @@ package zonemodel
 import (
 	"fmt"
 	"math"
+	"path"
 	"strings"
 
 	wm "verif/harness/wiremodel"
@@ -116,9 +117,40 @@ type Item struct {
 	Gen *Generate `json:",omitempty"`
 
 	// KInclude
-	File         string `json:",omitempty"`
+	File         string `json:",omitempty"` // the path as written: relative to the directory of the including file, or absolute
 	HasIncOrigin bool
 	IncOrigin    MName
+	// ViaGenerate: the $INCLUDE line is produced by "$GENERATE n-m $$INCLUDE file [origin]"
+	// (one inclusion per step). A $GENERATE is not a level of the include tree.
+	ViaGenerate bool  `json:",omitempty"`
+	GenAt       int64 `json:",omitempty"` // first iterator value
+	GenTimes    int   `json:",omitempty"` // number of steps (0 = 1)
+}
+
+// ResolveInclude is the include-FS path of a file named in a $INCLUDE of the file includer: a
+// relative path is relative to the directory of the including file; the result is cleaned and
+// rootless (fs.FS paths have no leading slash).
+func ResolveInclude(includer, written string) string {
+	if !path.IsAbs(written) {
+		written = path.Join(path.Dir(includer), written)
+	}
+	return strings.TrimLeft(path.Clean(written), "/")
+}
+
+// PlainLabels reports whether every label is made of letters, digits, '-' and '_' only (such
+// names can be written inside a $GENERATE line, where backslashes and '$' are special).
+func PlainLabels(n MName) bool {
+	for _, l := range n.Labels {
+		if len(l) == 0 {
+			return false
+		}
+		for _, c := range l {
+			if !(c >= 'a' && c <= 'z' || c >= 'A' && c <= 'Z' || c >= '0' && c <= '9' || c == '-' || c == '_') {
+				return false
+			}
+		}
+	}
+	return true
 }
 
 // Zone is a whole model: parser options, the top-level file and the include file system.
